@@ -316,7 +316,8 @@ def gen_journal(rng, idx):
         acct_pool.append(a)
     xs = []
     day = rng.choice([-25202, -2500, -400, -1, 0, 3000, 18262, 18262, 18262, 19000, 24855, 30000, 157112, 376000, 2932800])   # days from 1970-01-01 (the last one: 9999/10/12)
-    for xi in range(rng.choice([1, 1, 2, 3, 4])):
+    # rarely a journal without any transaction (only a comment): every report is then empty
+    for xi in range(0 if rng.random() < 0.02 else rng.choice([1, 1, 2, 3, 4])):
         x = Xact()
         day += rng.choice([0, 1, 5, 16])
         x.days = day
@@ -425,6 +426,8 @@ def render(xs):
             for nl in rest:
                 lines.append('    ;' + nl)
         lines.append('')
+    if not xs:
+        return '; no transactions\n'
     return '\n'.join(lines) + '\n'
 
 
@@ -1141,6 +1144,8 @@ def run(ctx, n_override=None):
             res.count('journal-with:payee-tag-both-levels')
         if any(m for x, ps in rec['shown'] for it in [x] + ps for m in it.metas):
             res.count('journal-with:metadata')
+        if not rec['xs']:
+            res.count('journal-without-transactions')
         if not rec['shown']:
             res.count('empty-report')
         if any(x.code is not None and x.code.strip(' ') == '' for x, _ in rec['shown']):
